@@ -224,6 +224,19 @@ fn run_suspense(items: &[Item], events: &[String]) -> (String, Option<String>) {
                         break;
                     }
                 }
+                // oracle: use_is_loading_global is true iff an unfinished, uncancelled task is registered at a
+                // boundary whose counter is still alive (it lives in the scope that created the boundary)
+                if verdict.is_none() {
+                    let want_g = (0..ww.task_left.len()).any(|t| ww.task_left[t] > 0 && !ww.task_cancelled[t] && ww.task_boundary[t].map(|b| {
+                        let inner = ww.loading[b].1;
+                        ww.scope_parent[inner].map(|p| !ww.dead_scopes[p]).unwrap_or(true)
+                    }).unwrap_or(false));
+                    if let Ok(got_g) = catch(|| root.run_in(sycamore::rt::use_is_loading_global)) {
+                        if got_g != want_g {
+                            verdict = Some(format!("[suspense-loading] after event {e}: use_is_loading_global() = {got_g} but {}", if want_g { "an unfinished task is registered under a live boundary" } else { "no unfinished task is registered under a live boundary" }));
+                        }
+                    }
+                }
                 if let Some((t, l)) = ww.polls_after_dispose.first() {
                     verdict.get_or_insert(format!("[poll-after-dispose] the body of task {t} resumed (await point {l} left) after its scope was disposed"));
                 }
